@@ -78,6 +78,10 @@ def broadcast(interp, a, b, node):
                             where=_where(interp, node))
     if oa[0] == 'vec' and ob[0] == 'vec':
         va, vb = oa[1], ob[1]
+        if (va.sel_mask is None) != (vb.sel_mask is None) or (va.sel_mask is not None and va.sel_mask != vb.sel_mask):
+            raise AnalysisError('element-wise operation between a data-dependent selection and an array of another shape', node)
+        if va.sel_mask is not None:
+            return list(zip(va.els(), vb.els())), va
         if len(va) != len(vb):
             if len(va) == 1:
                 ea = va.els() * len(vb)
@@ -101,10 +105,23 @@ def none_check(interp, e, node):
         raise AbsRaise(ExcVal('TypeError', ("unsupported operand type(s): 'NoneType'",)), node)
 
 
+def m_norm_f(f):
+    from .vec import m_norm
+    return m_norm(f)
+
+
 def arith_el(op, ea, eb, ma_style):
     """ma_style: numpy.ma operator semantics (data under mask = left operand's data)"""
     f = ARITH[op]
     m = m_or(ea.m, eb.m)
+    if op == 'Div' and ma_style:
+        # numpy.ma division is "domained": the result is masked where the divisor is zero
+        db = num_of_el(eb.d)
+        if X.is_num(db):
+            if db[1] == 0:
+                m = True
+        elif db not in (X.NAN, X.ANY):
+            m = m_or(m, m_norm_f(X.cmp('eq', db, X.num(0))))
     if m is True and ma_style:
         return El(num_of_el(ea.d), True)
     val = f(num_of_el(ea.d), num_of_el(eb.d))
@@ -139,6 +156,18 @@ def binop_model(M, interp, op, a, b, node):
             else:
                 out.append(El(X.fn('floordiv' if op == 'FloorDiv' else 'mod', x, y), m_or(ea.m, eb.m)))
         return Vec.fresh(out, kind=('nd' if tmpl.kind in ('dtindex',) else tmpl.kind), dtype=tmpl.dtype, index=tmpl.index if tmpl.kind == 'series' else None)
+    if op == 'Pow' and isinstance(a, Vec) and not isinstance(b, Vec):
+        k = M.conc_num(b, node, 'exponent')
+        if k.denominator != 1 or k < 0 or k > 8:
+            out = [El(X.fn('pow', num_of_el(e.d), X.num(k)), e.m) for e in a.els()]
+        else:
+            out = []
+            for e in a.els():
+                acc = X.num(1)
+                for _ in range(int(k)):
+                    acc = X.mul(acc, num_of_el(e.d))
+                out.append(El(acc, e.m))
+        return a.like(out, dtype='f8')
     if op in ('FloorDiv', 'Mod', 'Pow'):
         if all(isinstance(x, (int, Fr, Sc)) for x in (a, b)):
             x, y = M.conc_num(a, node), M.conc_num(b, node)
@@ -169,8 +198,8 @@ def binop_model(M, interp, op, a, b, node):
         if m_conc(e.m, node, 'scalar result'):
             return MASKED
         return Sc(e.d, dt, unit)
-    return Vec.fresh(out, kind=('nd' if kind in ('nd',) else kind), dtype=dt, unit=unit,
-                     index=getattr(tmpl, 'index', None) if kind == 'series' else None)
+    return with_sel(Vec.fresh(out, kind=('nd' if kind in ('nd',) else kind), dtype=dt, unit=unit,
+                              index=getattr(tmpl, 'index', None) if kind == 'series' else None), a, b)
 
 
 def note_int_arith(interp, operands, node):
@@ -289,7 +318,7 @@ def logic_model(M, interp, op, a, b, node):
         if m_conc(e.m, node, 'scalar result'):
             return MASKED
         return mkbool(e.d)
-    return Vec.fresh(out, kind=kind, dtype='b1', index=tmpl.index if kind == 'series' else None)
+    return with_sel(Vec.fresh(out, kind=kind, dtype='b1', index=tmpl.index if kind == 'series' else None), a, b)
 
 
 def unaryop_model(M, interp, op, v, node):
@@ -365,7 +394,7 @@ def compare_model(M, interp, op, a, b, node):
         if m_conc(e.m, node, 'scalar result'):
             return MASKED
         return mkbool(e.d)
-    return Vec.fresh(out, kind=kind, dtype='b1', index=tmpl.index if kind == 'series' else None)
+    return with_sel(Vec.fresh(out, kind=kind, dtype='b1', index=tmpl.index if kind == 'series' else None), a, b)
 
 
 def py_compare(M, interp, c, a, b, node):
@@ -675,7 +704,27 @@ def bool_positions(interp, mask, n, node):
     return pos
 
 
+def sel_of(*vals):
+    """common lazy-selection mask of operands (None if none); different masks cannot be combined"""
+    masks = [x.sel_mask for x in vals if isinstance(x, Vec) and x.sel_mask is not None]
+    if not masks:
+        return None
+    if any(m != masks[0] for m in masks):
+        raise AnalysisError('operands are boolean selections with different data-dependent masks')
+    return masks[0]
+
+
+def with_sel(res, *vals):
+    if isinstance(res, Vec):
+        sm = sel_of(*vals)
+        if sm is not None:
+            res.sel_mask = sm
+    return res
+
+
 def vec_getitem(M, interp, v, key, node):
+    if v.sel_mask is not None:
+        raise AnalysisError('indexing a data-dependent boolean selection', node)
     n = len(v)
     if isinstance(key, tuple) and len(key) == 1:
         key = key[0]
@@ -687,15 +736,20 @@ def vec_getitem(M, interp, v, key, node):
         return out
     if isinstance(key, Vec):
         if key.dtype == 'b1':
-            if key.kind == 'series':
-                key = key
+            conds = [bool_of_el(e.d) for e in key.els()]
+            if len(conds) == n and any(c not in (X.TRUE, X.FALSE) for c in conds) and v.sel_mask is None:
+                out = v.copy()
+                out.sel_mask = tuple(conds)
+                return out
             pos = bool_positions(interp, key, n, node)
             out = v.like([v.el(p) for p in pos])      # advanced indexing copies
             if v.kind == 'series' and v.index is not None:
                 out.index = v.index.like([v.index.el(p) for p in pos])
             return out
-        pos = [norm_checked(concrete_int(M, Sc(e.d), node), n, node) for e in key.els()]
-        return v.like([v.el(p) for p in pos])
+        out = []
+        for e in key.els():
+            out.append(select_through_ite(M, v, e.d, n, node))
+        return v.like(out)
     if isinstance(key, list):
         pos = [norm_checked(concrete_int(M, k, node), n, node) for k in key]
         return v.like([v.el(p) for p in pos])
@@ -710,6 +764,15 @@ def vec_getitem(M, interp, v, key, node):
     if m_conc(e.m, node, 'scalar element access'):
         return MASKED
     return scalar_of(e, v)
+
+
+def select_through_ite(M, v, d, n, node):
+    """element of v at an index expression that may be an if-then-else tree over concrete integers (lookup tables)"""
+    if isinstance(d, tuple) and d and d[0] == 'ite':
+        a = select_through_ite(M, v, d[2], n, node)
+        b = select_through_ite(M, v, d[3], n, node)
+        return El(X.ite(d[1], a.d, b.d), m_ite(d[1], a.m, b.m))
+    return v.el(norm_checked(concrete_int(M, Sc(d), node), n, node))
 
 
 def norm_checked(i, n, node):
@@ -835,6 +898,14 @@ def vec_store(M, interp, t, key, v, node):
         els = value_elements(M, interp, v, len(pos), node, t)
         for p, e in zip(pos, els):
             write(p, X.TRUE, e)
+        return
+    if isinstance(v, Vec) and v.sel_mask is not None:
+        # target[m] = source[m] with the same undecided mask m: element-wise conditional copy
+        if not (isinstance(key, Vec) and key.dtype == 'b1' and key.full_len() == n and tuple(bool_of_el(e.d) for e in key.els()) == v.sel_mask
+                and v.full_len() == n):
+            raise AnalysisError('store of a data-dependent boolean selection under a different index', node, where=_where(interp, node))
+        for p, (c, e) in enumerate(zip(v.sel_mask, v.els())):
+            write(p, c, e)
         return
     if isinstance(key, Vec) and key.dtype == 'b1':
         if len(key) != n:
